@@ -55,7 +55,7 @@ def shapes(depth: int) -> list:
     leaves = [int, str, T.Any, T.Optional[int], T.Literal[1, 'a'], T.Literal[True, 1], T.Literal[-2], T.Literal[-1], gen.U0, type[int], A.Iterator[int],
               T.Annotated[int, gen.IS_VALIDATORS[2]], T.Annotated[T.Any, gen.IS_VALIDATORS[3]], gen.TV_BOUND, int | str,
               # wide but NOT ignorable leaves: abstract classes nearly everything satisfies, user protocol / generics
-              A.Hashable, A.Sized, gen.Proto, gen.Box[int], type(None)]
+              A.Hashable, A.Sized, gen.Proto, gen.Box[int], type(None), gen.U0_TWIN, gen.Tagged[str], gen.Row[str]]
     hashable = [int, str, T.Optional[int], T.Literal[1, 'a'], int | str, tuple[int, str], T.Annotated[int, gen.IS_VALIDATORS[2]]]
 
     def level(children, hchildren):
@@ -450,7 +450,89 @@ def run(ck, n_hints: int, seed: int, focus: str, depth: int = 3, exhaustive_dept
         cost_oracle(ex, usable, og, reg, cs, fail)
     if focus == 'C10':
         consume_oracle(ex, usable, og, cs, fail, reg)
+    if focus == 'C12':
+        nonreflexive_oracle(ex, cs, fail)
     return ex
+
+
+class NeverEqual:
+    """an object that is not equal to itself (like NaN)"""
+    def __eq__(self, other):
+        return False
+
+    def __hash__(self):
+        return 7
+
+    def __repr__(self):
+        return 'NeverEqual()'
+
+
+def nonreflexive_oracle(ex, cs, fail):
+    """`IsEqual[x]` means `obj == x` — also for values that are not equal to themselves (NaN, objects whose __eq__ says
+    no): the inline code, the `is_valid` callable and the boolean meaning computed here by Python itself must agree on
+    the IDENTICAL object, a fresh equal-looking one and an ordinary one, bare and under ~ / & / IsAttr. (The Lean model
+    has no non-reflexive atom: this clause is judged on the real outcomes alone.)"""
+    from beartype import beartype
+    from beartype.door import die_if_unbearable, is_bearable
+    from beartype.roar import BeartypeCallHintViolation, BeartypeDoorHintViolation
+    from beartype.vale import IsAttr, IsEqual, IsInstance
+    nan, ne = float('nan'), NeverEqual()
+    n = 0
+    for x, label in ((nan, 'nan'), (ne, 'never-equal object')):
+        holder = gen.U0(x=x)
+        eq = IsEqual[x]
+        cases = [
+            (eq, lambda o: o == x, [x, float('nan') if x is nan else NeverEqual(), 1.0, 'a']),
+            (~eq, lambda o: not (o == x), [x, 1.0]),
+            (IsInstance[float, NeverEqual] & ~eq, lambda o: isinstance(o, (float, NeverEqual)) and not (o == x), [x, 1.0, 'a']),
+            (IsAttr['x', eq], lambda o: hasattr(o, 'x') and o.x == x, [holder, gen.U0(x=1.0)]),
+            (~IsAttr['x', eq], lambda o: not (hasattr(o, 'x') and o.x == x), [holder, gen.U0(x=1.0)]),
+        ]
+        for v, meaning, objs in cases:
+            h = T.Annotated[object, v]
+            for o in objs:
+                want = bool(meaning(o))
+                got = {}
+                for cn in ('default', 'nonrandom'):
+                    try:
+                        got[f'is_bearable/{cn}'] = is_bearable(o, h, conf=cs[cn])
+                    except Exception as e:   # noqa: BLE001
+                        got[f'is_bearable/{cn}'] = 'exc:' + type(e).__name__
+                    try:
+                        die_if_unbearable(o, h, conf=cs[cn])
+                        got[f'die_if_unbearable/{cn}'] = True
+                    except BeartypeDoorHintViolation:
+                        got[f'die_if_unbearable/{cn}'] = False
+                    except Exception as e:   # noqa: BLE001
+                        got[f'die_if_unbearable/{cn}'] = 'exc:' + type(e).__name__
+                try:
+                    got['is_valid'] = bool(v.is_valid(o))
+                except Exception as e:   # noqa: BLE001
+                    got['is_valid'] = 'exc:' + type(e).__name__
+
+                def f(a: h):
+                    return None
+                try:
+                    beartype(f)(o)
+                    got['param'] = True
+                except BeartypeCallHintViolation:
+                    got['param'] = False
+                except Exception as e:   # noqa: BLE001
+                    got['param'] = 'exc:' + type(e).__name__
+                n += 1
+                bad = {k: g for k, g in got.items() if g != want}
+                if bad:
+                    fail(f'C12:non-reflexive-operand:{label}:{vshape_of(v)}',
+                         f'{v!r:.120} on {"the identical " + label if (o is x or o is holder) else repr(o)[:40]}: boolean meaning {want}, '
+                         f'but {bad}', {'validator': repr(v)[:200], 'operand': label, 'object_is_operand': o is x or o is holder,
+                                        'meaning': want, 'observed': {k: str(g) for k, g in got.items()}})
+    ex.extra['nonreflexive_cases'] = n
+    ex.evaluations += n
+
+
+def vshape_of(v) -> str:
+    r = repr(v)
+    return ('not-' if r.startswith('~') else '') + ('attr' if 'IsAttr' in r else 'and' if '&' in r else 'eq')
 
 
 def perturb_last(x, depth=0):
